@@ -94,6 +94,13 @@ def _potential(spec, pts, c):
     return out
 
 
+def _acc_bound(ctx):
+    """Without the extra node at r = 0 the documented accuracy is the test-suite's 1e-2 level (measured up to 2.4e-3)."""
+    if (ctx.spec["grid"].get("opts") or {}).get("include_origin") is False:
+        return 4 * ACC_BOUND
+    return ACC_BOUND
+
+
 class Ctx:
     def __init__(self, spec, known):
         self.spec = spec
@@ -182,7 +189,11 @@ def _op_solve(ctx, op, state):
     ctx.rng.set_behaviour(beh, bseed)
     calls0 = ctx.rng.calls
     params = state["params"] if o.get("shared_params", True) else dict(state["params0"])
-    oc = _outcome(lambda: solve_poisson_bvp(g, rho, state["tf"], ode_params=params)(pts))
+    kw = dict(ctx.spec["grid"].get("opts") or {})
+    if kw.pop("exact_boundary", False):
+        # the asymptotic value handed in by the caller instead of being integrated: total charge * sqrt(4 pi)
+        kw["boundary"] = float(sum(co for kind, co, _ in spec if kind == "s") * np.sqrt(4 * np.pi))
+    oc = _outcome(lambda: solve_poisson_bvp(g, rho, state["tf"], ode_params=params, **kw)(pts))
     sig = which
     if oc[0] == "raise":
         ctx.violate("bvp-raise", "solve", f"{sig}:{type(oc[1]).__name__}", f"solve_poisson_bvp raised {oc[1]!r} (density {which}, rng draw {beh}:{bseed}, grid {ctx.spec['grid']})")
@@ -196,7 +207,7 @@ def _op_solve(ctx, op, state):
     scale = max(1.0, float(np.max(np.abs(ex))))
     acc = float(np.max(np.abs(v - ex))) / scale
     ctx.stats["acc"] = max(ctx.stats["acc"], acc)
-    if not np.isfinite(acc) or acc > ACC_BOUND:
+    if not np.isfinite(acc) or acc > _acc_bound(ctx):
         ctx.violate("accuracy", "solve", sig, f"potential of density {which} ({spec}) off by {acc:.3g} (> {ACC_BOUND}) under rng draw {beh}:{bseed}")
     prev = state["results"].get(which)
     if prev is not None:
@@ -279,6 +290,12 @@ def _op_robust(ctx, op, state):
     had_fault = ctx.store.active()
     mark = len(ctx.store.fired_log)
     kw = {"ode_params": state["params"]} if o.get("shared_params", True) else {}
+    gopts = dict(ctx.spec["grid"].get("opts") or {})
+    if gopts.pop("exact_boundary", False) and not o.get("split2"):
+        # boundary value of the *residual* the robust solver hands to the BVP solver: charge of the smooth part
+        # (with split2 the residual is what is left after the NNLS fit, whose charge the caller does not know)
+        kw["boundary"] = float(sum(co for kind, co, _ in smooth if kind == "s") * np.sqrt(4 * np.pi))
+    kw.update(gopts)  # forwarded to solve_poisson_bvp through **bvp_kwargs, same options as the plain solves of the run
     oc = _outcome(lambda: solve_poisson_robust(g, rho, state["tf"], np.array([z]), c[None, :].copy(), split2=bool(o.get("split2")), **kw)(pts))
     fired = len(ctx.store.fired_log) > mark
     sig = f"{kind}:{z}"
@@ -298,7 +315,7 @@ def _op_robust(ctx, op, state):
         ctx.stats["core"] = max(ctx.stats["core"], err)
         if err > CORE_BOUND:
             ctx.violate("exact-core", "robust", sig, f"robust solver on its own fitted core model of Z={z} off by {err:.3g} (> {CORE_BOUND}); draw {beh}:{bseed}")
-    elif err > ACC_BOUND:
+    elif err > _acc_bound(ctx):
         ctx.violate("accuracy", "robust", sig, f"robust potential off by {err:.3g}")
     rk = ("robust", kind, z, bool(o.get("split2")))
     prev = state["results"].get(rk)
@@ -394,6 +411,15 @@ class PoissonSeamEngine:
             "deg": 3 if ptype else rng.choice([3, 4, 5]), "center": [round(rng.uniform(-1, 1), 2) for _ in range(3)], "rotate": rng.choice([0, 5, 99]),
             "pseed": rng.randrange(1000), "tol": 1e-4 if ptype else rng.choice([1e-4, 1e-5, 1e-6]),
         }
+        # solver options are part of the configuration of a run (fixed per run so that draws / linearity stay comparable)
+        opts = {}
+        if rng.random() < 0.4:
+            opts["remove_large_pts"] = rng.choice([100.0, None, 1e6])
+        if rng.random() < 0.2 and grid["rmin"] == 1e-4:
+            opts["include_origin"] = False
+        if rng.random() < 0.25:
+            opts["exact_boundary"] = True
+        grid["opts"] = opts
 
         def dens():
             out = [["s", round(rng.uniform(0.3, 1.5), 3), round(rng.uniform(1.0, 4.0), 3)] for _ in range(rng.randint(1, 2))]
